@@ -33,7 +33,7 @@ MUTATING = {"update", "append", "add", "extend", "setdefault", "pop", "clear", "
 def run(ctx):
     repo = ctx.repo
     res = Result(PROP)
-    res.rules = ["E-TYPE", "E-REJECT", "E-DIR", "E-FOOT", "E-ALIAS", "E-LOOPALIAS"]
+    res.rules = ["E-TYPE", "E-REJECT", "E-DIR", "E-FOOT", "E-FIRST", "E-ALIAS", "E-LOOPALIAS"]
     res.explanation = (
         "Narrow claim. Raise sites of the three class bodies are classified by their guard and the raised class is "
         "resolved; removals keyed by parameters are checked for a dominating membership test or a converting handler; "
@@ -69,6 +69,7 @@ def run(ctx):
         check_idddict(repo, res)
         check_foot(repo, eng, res)
         check_clear_update(repo, eng, res)
+        check_merge_first(repo, res)
     return res
 
 
@@ -408,6 +409,59 @@ def check_clear_update(repo, eng, res):
                 res.inst("E-ALIAS", f"{up.qualname} (as {cname}) hands `{pname}` to {callee} when it is given", ok)
                 if not ok:
                     res.add(mk_finding(PROP, "E-ALIAS", up, up.node, f"{up.qualname}: `{pname}` is not handed to {callee}() on the branch where it is given; update() is documented to add the given nodes and edges", role=f"{cname}:update:{pname}"))
+
+
+def check_merge_first(repo, res):
+    """E-FIRST: in merge_duplicate_edges the options rename="first" / merge_rule="first" pick the SMALLEST duplicate ID
+    (documented: "the first of the sorted duplicate IDs"), not whichever comes first in the table's insertion order."""
+    ci = repo.get_class("Hypergraph")
+    m = ci.methods.get("merge_duplicate_edges")
+    if m is None:
+        raise AnalysisError("Hypergraph.merge_duplicate_edges not found (anchor vanished)")
+    local = {}
+    for st in own_statements(m.node):
+        if isinstance(st, ast.Assign) and len(st.targets) == 1 and isinstance(st.targets[0], ast.Name):
+            local.setdefault(st.targets[0].id, []).append(st.value)
+
+    def ordered(e, depth=0):
+        """e is min(...) / sorted(...)[0] (through locals bound only to such)."""
+        if depth > 3:
+            return False
+        if isinstance(e, ast.Call) and getattr(e.func, "id", None) == "min":
+            return True
+        if isinstance(e, ast.Subscript) and isinstance(e.value, ast.Call) and getattr(e.value.func, "id", None) == "sorted":
+            return True
+        if isinstance(e, ast.Name) and e.id in local:
+            return all(ordered(v, depth + 1) for v in local[e.id])
+        if isinstance(e, (ast.Call, ast.Subscript, ast.Attribute)):
+            # deepcopy(self._edge_attr[min(dup_ids)]) and the like: the ID inside the expression is the ordered one
+            return any(ordered(ch, depth + 1) for ch in ast.iter_child_nodes(e) if isinstance(ch, ast.expr) and not (isinstance(ch, ast.Attribute) and isinstance(ch.value, ast.Name) and ch.value.id == "self"))
+        return False
+
+    n = 0
+    # the method and the private helpers of the class it calls (the attribute merge may live in a helper)
+    bodies = [m]
+    for c in ast.walk(m.node):
+        if isinstance(c, ast.Call) and isinstance(c.func, ast.Attribute) and isinstance(c.func.value, ast.Name) and c.func.value.id == m.params[0] and c.func.attr.startswith("_"):
+            h = repo.find_method(ci, c.func.attr)
+            if h is not None and h not in bodies:
+                bodies.append(h)
+                for st in own_statements(h.node):
+                    if isinstance(st, ast.Assign) and len(st.targets) == 1 and isinstance(st.targets[0], ast.Name):
+                        local.setdefault(st.targets[0].id, []).append(st.value)
+    for st in [x for b in bodies for x in ast.walk(b.node)]:
+        if isinstance(st, ast.If) and isinstance(st.test, ast.Compare) and isinstance(st.test.left, ast.Name) and st.test.left.id in ("rename", "merge_rule") and isinstance(st.test.comparators[0], ast.Constant) and st.test.comparators[0].value == "first":
+            which = st.test.left.id
+            picks = [b for b in st.body if (isinstance(b, ast.Assign) and len(b.targets) == 1 and isinstance(b.targets[0], ast.Name)) or (isinstance(b, ast.Return) and b.value is not None)]
+            if not picks:
+                raise AnalysisError(f"merge_duplicate_edges: the {which}='first' branch does not pick an ID (extractor does not recognise the code)")
+            pick = picks[0]
+            n += 1
+            ok = ordered(pick.value)
+            res.inst("E-FIRST", f"merge_duplicate_edges [{which}='first']: `{unparse(pick, 50)}` takes the smallest duplicate ID", ok)
+            if not ok:
+                res.add(mk_finding(PROP, "E-FIRST", m, pick, f"Hypergraph.merge_duplicate_edges: with {which}='first' the representative is `{unparse(pick.value, 40)}`, i.e. whichever duplicate comes first in the edge table, not the smallest ID as documented; after edges were re-inserted or given explicit IDs out of order the merged edge gets another ID / another edge's attributes", role=f"{which}:first"))
+    res.floor("'first' options of merge_duplicate_edges", n, 2)
 
 
 # ------------------------------------------------------------------------------------------ E-ALIAS
